@@ -140,7 +140,7 @@ def BackInv (s : Col α) : Prop := IngrBack s.ingredients ∧ CwBack s.cookware
 
 theorem BackInv.init : BackInv (α := α) {} := ⟨IngrBack.empty, CwBack.empty⟩
 
-theorem Trans.back {env : Env} {b : Bool} {s s' : Col α} (ht : Trans env b s s') (h : BackInv s) : BackInv s' := by
+theorem Trans.back {env : Env} {b : Ev α} {s s' : Col α} (ht : Trans env b s s') (h : BackInv s) : BackInv s' := by
   cases ht with
   | keep hsec hcur hi hc hb => exact ⟨by rw [hi]; exact h.1, by rw [hc]; exact h.2⟩
   | newSection name hse hsec hcur hi hc hb => exact ⟨by rw [hi]; exact h.1, by rw [hc]; exact h.2⟩
